@@ -174,14 +174,20 @@ def check_scaled(case):
     # a True flag of the scaled solve refers to the scaled gradient: |D^-1 g| < tol  =>  |g_i| < tol * scaling_i
     sc = onp.asarray(so.scaling)
     gs = onp.asarray(grad(np.array(xs2), p_new)) / sc
-    if onp.linalg.norm(gs) > settings.tol * (1 + 1e-6):
+    # the flag was decided at xBar; the returned x = xBar / scaling is rounded: re-scaling it perturbs the gradient by
+    # ~eps |H| |x| (plus the rounding of the gradient evaluation itself), which matters when tol is tiny against |H||x|
+    Habs = onp.abs(onp.asarray(hess(np.array(xs2), p_new)))
+    gnoise = 16 * EPS * onp.linalg.norm((Habs @ onp.abs(xs2) + onp.abs(onp.asarray(p_new[0]))) / sc)
+    if onp.linalg.norm(gs) > settings.tol * (1 + 1e-6) + gnoise:
         fails.append(Failure('scaled-flag', 'scaled solve reported success but the scaled gradient norm is %.3e >= tol %.3e' % (onp.linalg.norm(gs), settings.tol), **data))
     err = onp.abs(xs2 - xref) * sc
     bound = 10 * settings.tol * sc.max() ** 2 / max(lam[0], 1e-300) + 1e-9 * onp.abs(xref * sc).max()
     # compare in the scaled variables xBar = scaling * x, where the problem is well conditioned
     Hbar = Hs / onp.outer(sc, sc)
     lb = onp.linalg.eigvalsh(0.5 * (Hbar + Hbar.T))
-    if onp.linalg.norm((xs2 - xref) * sc) > 10 * settings.tol / lb[0] + 1e-9 * onp.linalg.norm(xref * sc):
+    # + accuracy of the reference minimiser (its own gradient norm over lambda_min) and the gradient rounding noise
+    gref_bar = onp.linalg.norm(onp.asarray(grad(np.array(xref), p_new)) / sc)
+    if onp.linalg.norm((xs2 - xref) * sc) > (10 * settings.tol + 2 * gref_bar + 2 * gnoise) / lb[0] + 1e-9 * onp.linalg.norm(xref * sc):
         fails.append(Failure('scaling-transparent', 'solution through ScaledObjective differs from the dense reference by %.3e (scaled variables; tol/lambda_min = %.1e)'
                              % (onp.linalg.norm((xs2 - xref) * sc), settings.tol / lb[0]), **data))
     if not (onp.array_equal(onp.asarray(so.p[0]), onp.asarray(p_new[0]))):
